@@ -5,9 +5,9 @@ import verifylib as V
 
 ASSUME = [
     "values range over small exact domains (ints -2..3, dyadic floats, strings over a few bytes, durations in whole ms, two times); "
-    "numeric accuracy on full int64/float64 (overflow, NaN/Inf, float formatting), the full built-in library and regex engine semantics are not decided by the model",
-    "results the finite model does not decide (inexact float quotients, sigma, int(duration), duration(string)) are only checked for their type and for history independence",
-    "the function state after a point that was reported as an error is only bounded (no function called more often than a full evaluation would)",
+    "numeric accuracy on full int64/float64 (overflow, rounding, float formatting), the full built-in library and regex engine semantics are not decided by the model",
+    "results the finite model does not decide (inexact float quotients, sigma beyond its NaN/zero cases, values beyond 2^30) are only checked for their type, for being an error or not, and for history independence",
+    "NaN, +-Inf and -0 are modelled exactly (IEEE 754); int64(NaN/Inf) and Duration(NaN/Inf) are not defined by Go and only checked for their type",
     "TLC fingerprint collisions are negligible; the libflux link stub is never executed",
 ]
 
